@@ -463,12 +463,15 @@ func discharge(groups []*Group, workDir string, timeout int, confirm bool, worke
 		// third pass: what is still undecided, one query at a time with four times the limit
 		// (only when a handful is left: many undecided queries are not a load blip, and retrying them one by one
 		// would take hours)
+		// would take hours; the whole third pass of a run is limited to a few minutes)
+		spent := 0.0
 		for _, sb := range undecided {
-			if len(undecided) > 6 {
+			if len(undecided) > 4 || spent > float64(4*timeout) {
 				record(sb, "unknown", "", "undecided within the limit (not retried: too many undecided path queries)", 0)
 				continue
 			}
-			v, s, out, t, _, _ := race2(sb.query, sb.file, sb.fileB, timeout*4, false)
+			v, s, out, t, _, _ := race2(sb.query, sb.file, sb.fileB, timeout*3, false)
+			spent += t
 			record(sb, v, s+" (retried alone)", out, t)
 		}
 		for i, r := range results {
